@@ -138,6 +138,7 @@ class choice_point:
         if self.matches is None:
             return False
         for self.matches_cur in self.matches:  # noqa: B020 (idiomatic "pull next from iterator")
+            self._reset_iters()
             break
         else:
             self.matches_cur = self.matches = None
